@@ -72,7 +72,7 @@ class C18(Machine):
                    "parallel_law_checked", "aliased_update",
                    "megaohm_circuit", "retyped_real_complex",
                    "two_networks_interleaved", "resistances_on_non_links",
-                   "narrow_integer_resistances")
+                   "narrow_integer_resistances", "update_on_shallow_copy")
     real_vs_stub = {"real": ["ResNetwork (constructor, update_resistances, "
                              "all resistive queries, compiled VCFB/ECFB "
                              "kernels)"], "stub": []}
@@ -124,6 +124,10 @@ class C18(Machine):
                 else:
                     op["e"] = o.randrange(10 ** 6)
                     op["value"] = o.choice((0.05, 1.0, 7.5, 100.0))
+                # now and then the update goes to a shallow copy of the
+                # network (copy.copy): the original keeps its circuit
+                if k in ("random", "scale") and o.random() < 0.2:
+                    op["on_copy"] = True
                 # the caller may keep one array, edit it in place and pass
                 # it again, or pass a new array each time
                 op["alias"] = o.random() < 0.4
@@ -235,6 +239,19 @@ class C18(Machine):
                 # in the type of the new matrix
                 extra = o.extra if np.iscomplexobj(new) else np.real(o.extra)
                 passed = new * (o.A != 0) + extra
+                if op.get("on_copy"):
+                    import copy as _copy
+                    twin = _copy.copy(net)
+                    out = C.call(twin.update_resistances, passed.copy())
+                    R.probe("update_on_shallow_copy")
+                    if isinstance(out, C.Raised):
+                        R.violate(f"{self.pid}|update_resistances|raises",
+                                  f"valid update of a copy raised {out!r}")
+                        break
+                    o.last_scale = None
+                    sig_ops.append(tagobj + "uc:" + op["kind"])
+                    R.trace.append(("update-on-copy", op["kind"]))
+                    continue
                 if alias and o.held.dtype == passed.dtype:
                     o.held[...] = passed     # in-place edit, same object
                     R.probe("aliased_update")
